@@ -77,6 +77,71 @@ func runHeldChild() *ShardResult {
 		}},
 		{"Set(k1, nil)", func(w *wal.WAL, _ *uint64) error { return w.Set([]byte("k1"), nil) }},
 	}
+	// the caller's buffer belongs to the caller as well: reusing it for the next Set must store the new bytes
+	reuse := func(name string, f func(w *wal.WAL) (want string, err error)) {
+		res.Counts["evaluations"]++
+		res.Counts["reused_buffer_cases"]++
+		dir, err := os.MkdirTemp(core.ScratchRoot(), "verif-held-")
+		if err != nil {
+			return
+		}
+		defer os.RemoveAll(dir)
+		w, err := wal.Open(dir, wal.WithSegmentSize(128))
+		if err != nil {
+			return
+		}
+		want, err := f(w)
+		if err != nil {
+			w.Close()
+			return
+		}
+		got, err := w.Get([]byte("k1"))
+		if err != nil || string(got) != want {
+			add("reuse|"+name, fmt.Sprintf("real fs + bbolt: %s: Get(k1) = %q (err %v), want %q", name, got, err, want))
+		}
+		w.Close()
+		w2, err := wal.Open(dir, wal.WithSegmentSize(128))
+		if err != nil {
+			return
+		}
+		defer w2.Close()
+		got, err = w2.Get([]byte("k1"))
+		if err != nil || string(got) != want {
+			add("reuse-reopen|"+name, fmt.Sprintf("real fs + bbolt: %s, after a clean reopen: Get(k1) = %q (err %v), want %q", name, got, err, want))
+		}
+	}
+	reuse("Set(k1, buf), overwrite buf in place, Set(k1, buf)", func(w *wal.WAL) (string, error) {
+		buf := []byte("server-1")
+		if err := w.Set([]byte("k1"), buf); err != nil {
+			return "", err
+		}
+		copy(buf, "server-2")
+		return "server-2", w.Set([]byte("k1"), buf)
+	})
+	reuse("Set(k1, buf), overwrite buf in place, Set(k1, fresh slice with the new bytes)", func(w *wal.WAL) (string, error) {
+		buf := []byte("aaaa")
+		if err := w.Set([]byte("k1"), buf); err != nil {
+			return "", err
+		}
+		copy(buf, "bbbb")
+		return "bbbb", w.Set([]byte("k1"), []byte("bbbb"))
+	})
+	reuse("Set(k1, x), Set(k1, x) with the same bytes, Set(k1, y), Set(k1, x)", func(w *wal.WAL) (string, error) {
+		for _, v := range []string{"x", "x", "y"} {
+			if err := w.Set([]byte("k1"), []byte(v)); err != nil {
+				return "", err
+			}
+		}
+		return "x", w.Set([]byte("k1"), []byte("x"))
+	})
+	reuse("SetUint64(k1, 7) twice then Set(k1, buf) with a key slice that is overwritten afterwards", func(w *wal.WAL) (string, error) {
+		key := []byte("k1")
+		w.SetUint64(key, 7)
+		w.SetUint64(key, 7)
+		err := w.Set(key, []byte("final"))
+		copy(key, "zz")
+		return "final", err
+	})
 	sizes := []int{3, 900, 1500, 5000, 20000}
 	res.Bounds["held_value_sizes"] = sizes
 	res.Bounds["held_followup_depth"] = 3
